@@ -68,6 +68,7 @@ func runC16(r *engine.Run) {
 	r.Rule("ORDER-critical", "Insert, Delete, MergeChanges and MergeDB acquire the trie's write lock before the first read of the root and keep it (deferred unlock) until after the last root update: each mutating operation is a single critical section")
 	r.Rule("LOCK-reentrant", "no Lock or RLock of a mutex is reachable while the same goroutine already holds that mutex of the same object: held-on-receiver facts (must-lockset inside a function) are carried into callees only along calls made on the same receiver value, over every call chain; sync mutexes are not reentrant (a second RLock deadlocks as soon as a writer queues up between the two)")
 	r.Rule("LOCK-order", "two mutexes that are ever held together are always taken in the same order: an edge A -> B is recorded wherever B is acquired while A is held on every path (must-lockset, interprocedural over every function reachable from the entry set), and the graph over the distinct lock keys (owner type.field) has no cycle - a cycle is an ABBA deadlock that only a particular interleaving shows")
+	r.Rule("REF-livechange", "the change collector rewrites the change objects it holds in place (AddChange assigns the New field of the object found in its Changes map) under its own lock; therefore no function hands out a *NodeChange obtained from that map (into a slice element, an append or a return value): readers of a change set hold no lock, so GetChanges and the like hand out copies")
 	r.Rule("REF-poolput", "no function of the repository (the hash helpers the trie calls under its read lock included) touches an object after handing it back to a sync.Pool with Put: the next Get may give it to a concurrent caller")
 	r.Rule("PAIR-unlock", "every Lock/RLock of a mutex is followed on every path to a return of the acquiring function by the matching Unlock/RUnlock on the same mutex or by a deferred one registered on the path: no operation returns with the lock held (every later operation on the object would block)")
 	r.Rule("WHO-readonly", "see C06: lookups of the transaction cache never store into its pending map (trie readers run in parallel under the trie's read lock and share one transaction cache)")
@@ -86,6 +87,7 @@ func runC16(r *engine.Run) {
 	lockReentrant(r, "LOCK-reentrant", funcsOfPkg(r, pkgUtil), 20)
 	lockOrder(r, "LOCK-order", w, 40)
 	refPoolPut(r, "REF-poolput")
+	refLiveChange(r, "REF-livechange")
 	whoReadOnly(r, "WHO-readonly")
 }
 
